@@ -350,6 +350,23 @@ func genProgram(t *rapid.T, fields map[string]any) ([]*gen.Node, *sgen.G) {
 		default:
 			mk = []*gen.Node{gen.NSet("cy", gen.NList(gen.NMap(gen.NStr("k"), gen.NInt(1)))), gen.NAssign("=", []*gen.Node{gen.NIndex(gen.NIdent("cy"), gen.NInt(0), gen.NStr("up"))}, []*gen.Node{gen.NIdent("cy")})}
 		}
+		// ... or a fresh collection that merely holds such a value, once or twice removed; or two collections holding each other
+		for w, nw := 0, rapid.IntRange(0, 2).Draw(g.T, "wraps"); w < nw; w++ {
+			g.Feat["self-containing-collection-wrapped"] = true
+			switch rapid.IntRange(0, 3).Draw(g.T, "wrapkind") {
+			case 0:
+				mk = append(mk, gen.NSet("cy", gen.NList(gen.NIdent("cy"))))
+			case 1:
+				mk = append(mk, gen.NSet("cy", gen.NList(gen.NInt(0), gen.NIdent("cy"))))
+			case 2:
+				mk = append(mk, gen.NSet("cy", gen.NMap(gen.NStr("inner"), gen.NIdent("cy"))))
+			default:
+				mk = append(mk, gen.NSet("other", gen.NList(gen.NIdent("cy"))), gen.NSet("cy", gen.NMap(gen.NStr("a"), gen.NIdent("other"), gen.NStr("b"), gen.NIdent("other"))))
+			}
+		}
+		if rapid.IntRange(0, 5).Draw(g.T, "mutual") == 0 {
+			mk = []*gen.Node{gen.NSet("pp", gen.NList(gen.NInt(1))), gen.NSet("cy", gen.NList(gen.NIdent("pp"))), gen.NAssign("=", []*gen.Node{gen.NIndex(gen.NIdent("pp"), gen.NInt(0))}, []*gen.Node{gen.NIdent("cy")})}
+		}
 		cy := gen.NIdent("cy")
 		var use *gen.Node
 		switch rapid.IntRange(0, 9).Draw(g.T, "cycuse") {
